@@ -10,6 +10,7 @@
    [SErrUndefined] (a genuine error report) are not excluded here. *)
 From Coq Require Import ZArith NArith List Bool Lia Arith.
 Require Import Model.Base Model.Ir Model.SsaCheck Model.Ssa Proofs.IrInd.
+Require Export Model.SsaPre.
 Import ListNotations.
 
 Definition np {A} (m : ssa_result A) : Prop := m <> SPanic.
@@ -369,12 +370,6 @@ Proof.
   - intros i Hi. apply U. apply unv_at_update; [|exact Hi].
     intros b Hb. unfold block_unv in *. simpl. rewrite update_phis_unv. exact Hb.
 Qed.
-
-Fixpoint preorder (fuel : nat) (children : list (list N)) (cur : nat) : list nat :=
-  match fuel with
-  | O => []
-  | S f => cur :: flat_map (fun k => preorder f children (N.to_nat k)) (nth cur children [])
-  end.
 
 Fixpoint rename_kids (fuel' : nat) (decls : list (vname * vtype)) (children : list (list N))
          (kids : list N) (bs : list block) (env : senv) : ssa_result (list block * senv) :=
